@@ -17,8 +17,8 @@ static event_t convert_to(type_t tr, event_t e) { event_t f = e; f.type = -1 - t
 static type_t dyn_type(event_t e) { return g_dyn_type; }
 static event_t any_cast_to(type_t t, event_t e) { event_t f = e; f.type = t; return f; }     /* any_cast<T>(any holding T) [A] */
 HandledEnum Transition_execute(type_t tr, fsm_t* fsm, int region_index, int state, event_t evt)
-__CPROVER_requires(g_row_calls == 0)                                             /*@ob C18.converted-row-executed-exactly-once */
-__CPROVER_requires(evt.payload == g_evt.payload)                                 /*@ob C18.payload-intact-after-conversion */
+__CPROVER_requires(g_row_calls == 0)                                             /*@ob C18,C01.converted-row-executed-exactly-once */
+__CPROVER_requires(evt.payload == g_evt.payload)                                 /*@ob C18,C20.payload-intact-after-conversion */
 __CPROVER_requires(tr == Transition)
 __CPROVER_assigns(g_row_calls, g_row_ret)
 __CPROVER_ensures(g_row_calls == 1 && 0 <= g_row_ret && g_row_ret <= 7 && (int)__CPROVER_return_value == g_row_ret)
@@ -26,20 +26,20 @@ __CPROVER_ensures(g_row_calls == 1 && 0 <= g_row_ret && g_row_ret <= 7 && (int)_
 HandledEnum convert_event_and_forward(fsm_t* fsm, int region_index, int state, event_t evt)
 __CPROVER_requires(EV_EQ(evt, g_evt) && g_row_calls == 0)
 __CPROVER_assigns(g_row_calls, g_row_ret)
-__CPROVER_ensures(g_row_calls == 1 && (int)__CPROVER_return_value == g_row_ret)   /*@ob C18.converted-row-executed-exactly-once */
+__CPROVER_ensures(g_row_calls == 1 && (int)__CPROVER_return_value == g_row_ret)   /*@ob C18,C01.converted-row-executed-exactly-once */
 ;
 process_result convert_event_and_execute(fsm_t* sm, uint8_t region_id, event_t evt)
 __CPROVER_requires(EV_EQ(evt, g_evt) && g_row_calls == 0)
 __CPROVER_assigns(g_row_calls, g_row_ret)
-__CPROVER_ensures(g_row_calls == 1 && (int)__CPROVER_return_value == g_row_ret)   /*@ob C18.converted-row-executed-exactly-once */
+__CPROVER_ensures(g_row_calls == 1 && (int)__CPROVER_return_value == g_row_ret)   /*@ob C18,C01.converted-row-executed-exactly-once */
 ;
 #define Transition_execute3(tr, sm, r, e) Transition_execute(tr, sm, r, 0, e)
 
 /* storing one deferred occurrence (defer_event / do_defer_event units: deferred.spec.h) */
 void store_deferred(fsm_t* self, event_t e)
-__CPROVER_requires(e.type == g_dyn_type && 0 <= g_dyn_type && g_dyn_type < g_n)  /*@ob C18.kleene-event-deferred-as-its-exact-dynamic-type */
-__CPROVER_requires(e.payload == g_evt.payload)                                   /*@ob C18.payload-intact-in-deferred-kleene-event */
-__CPROVER_requires(g_dpushed == 0)                                               /*@ob C18.exactly-one-occurrence-stored */
+__CPROVER_requires(e.type == g_dyn_type && 0 <= g_dyn_type && g_dyn_type < g_n)  /*@ob C18,C05.kleene-event-deferred-as-its-exact-dynamic-type */
+__CPROVER_requires(e.payload == g_evt.payload)                                   /*@ob C18,C05,C20.payload-intact-in-deferred-kleene-event */
+__CPROVER_requires(g_dpushed == 0)                                               /*@ob C18,C20.exactly-one-occurrence-stored */
 __CPROVER_assigns(g_dpushed)
 __CPROVER_ensures(g_dpushed == 1)
 ;
@@ -70,8 +70,8 @@ extern char g_cur_seq;
 extern const int g_default_payload;
 static event_t type_carrier(type_t t) { event_t e = g_evt; e.type = t; e.payload = g_default_payload; return e; }
 void kdq_push_back(fsm_t* fsm, kpair_t p)
-__CPROVER_requires(p.first.target == fsm)                                        /*@ob C05.deferred-occurrence-stored-for-this-machine */
-__CPROVER_requires(p.first.ev.type == g_dyn_type && p.first.ev.payload == g_evt.payload)   /*@ob C18.kleene-event-deferred-as-its-exact-dynamic-type */
+__CPROVER_requires(p.first.target == fsm)                                        /*@ob C05,C07.deferred-occurrence-stored-for-this-machine */
+__CPROVER_requires(p.first.ev.type == g_dyn_type && p.first.ev.payload == g_evt.payload)   /*@ob C18,C05.kleene-event-deferred-as-its-exact-dynamic-type */
 __CPROVER_requires(p.second == (char)(g_cur_seq + 1) && g_dpushed == 0)          /*@ob C05.not-re-offered-within-the-cycle-that-deferred-it */
 __CPROVER_assigns(g_dpushed)
 __CPROVER_ensures(g_dpushed == 1)
